@@ -78,15 +78,16 @@ package unixsocket
 //@   assigns nothing
 //@   ensures result != nil && fresh(result) && result.UnixConn == conn && len(result.recvBuff) == 4096 && len(result.sendBuff) == 4096
 
-//@ func pkg/unixsocket.NewSocket props C06 C19
+//@ func pkg/unixsocket.NewSocket props C06 C12 C19
 //@   arith int
-//@   assigns FD.cloexec
+//@   assigns FD.cloexec, FC.closed
+//@   callsite return: assert @C12 file != nil ==> FC.closed[file]
 //@   ensures @C06 FD.cloexec[fd]
 //@   ensures result.1 == nil ==> result.0 != nil && result.0.UnixConn != nil && len(result.0.recvBuff) == 4096
 
 //@ func pkg/unixsocket.NewSocketPair props C19
 //@   arith int
-//@   assigns FD.closed, FD.cloexec
+//@   assigns FD.closed, FD.cloexec, FC.closed
 //@   ensures result.2 == nil ==> result.0 != nil && result.0.UnixConn != nil && result.1 != nil && result.1.UnixConn != nil
 //@ func pkg/unixsocket.(*Socket).SetPassCred
 //@   trusted "setsockopt(SO_PASSCRED) through SyscallConn().Control (closure over the raw descriptor)"
